@@ -1028,6 +1028,12 @@ impl Server {
                                     debug!("Server connection marked for clean up");
                                     self.cleanup_state.needs_cleanup_prepare = true;
                                 }
+
+                                // In a multi-statement query the transaction can end before
+                                // ReadyForQuery reports it: a SET after the COMMIT runs outside of it.
+                                "COMMIT" | "ROLLBACK" => {
+                                    self.in_transaction = false;
+                                }
                                 _ => (),
                             }
                         }
